@@ -79,6 +79,7 @@ func checkC08(c *core.Ctx) {
 	ruleRunLogInsertsOnce(c)
 	ruleLogKinds(c)
 	ruleImportArms(c)
+	ruleLoggedAccountMetadataIsApplied(c)
 	// "every successful non-dry-run write appends exactly one log": a dry run must not commit
 	// (begin/commit/rollback pairing, shared with C07); ids in commit order need plain per-ledger
 	// sequences (shared with C16)
@@ -834,6 +835,7 @@ func checkC11(c *core.Ctx) {
 	c.Trust("same as C08, C12, C16")
 	ruleLogKinds(c)
 	ruleImportArms(c)
+	ruleLoggedAccountMetadataIsApplied(c)
 	ruleImportHashVerified(c)
 	ruleSequenceResync(c)
 	ruleDecoratorCompleteness(c, "DECO/all", nil)
@@ -926,4 +928,50 @@ func ruleImportHashVerified(c *core.Ctx) {
 		c.Fail("DOM/import-hash-verified", key, pos(c, d.Decl), failMsg)
 	}
 	_ = load.Module
+}
+
+// ruleLoggedAccountMetadataIsApplied: createTransaction applies account metadata (script-produced
+// merged with the request's) through upsertTransactionAccounts and records it in the payload of
+// the NEW_TRANSACTION log. Replaying the log (import) applies payload.AccountMetadata: the two
+// must be the same value, or the journal is not complete.
+func ruleLoggedAccountMetadataIsApplied(c *core.Ctx) {
+	d := fn(c, pkgCtrl, "DefaultController", "createTransaction")
+	if d == nil {
+		return
+	}
+	info := d.Pkg.TypesInfo
+	key := declKey(d)
+	env := newOriginEnv(c, d)
+	var applied ast.Expr
+	for _, call := range callsTo(info, d.Decl.Body, named("upsertTransactionAccounts")) {
+		if len(call.Args) >= 5 {
+			applied = call.Args[4]
+		}
+	}
+	var logged ast.Expr
+	ast.Inspect(d.Decl.Body, func(n ast.Node) bool {
+		if cl, ok := n.(*ast.CompositeLit); ok && astx.RecvTypeName(info.TypeOf(cl)) == "CreatedTransaction" {
+			if v := fieldOfCompositeLit(cl, "AccountMetadata"); v != nil {
+				logged = v
+			}
+		}
+		return true
+	})
+	if applied == nil || logged == nil {
+		c.Unrecognised("DOM/logged-account-metadata", key, pos(c, d.Decl), "the account metadata applied (upsertTransactionAccounts) or logged (CreatedTransaction.AccountMetadata) was not found in createTransaction itself")
+		return
+	}
+	a, l := env.rootObj(applied), env.rootObj(logged)
+	switch {
+	case a != nil && a == l:
+		c.Pass("DOM/logged-account-metadata", key, pos(c, logged), "the payload records the account metadata that was applied")
+	case a == nil || l == nil:
+		if env.origin(applied) == env.origin(logged) {
+			c.Pass("DOM/logged-account-metadata", key, pos(c, logged), "the payload records the account metadata that was applied")
+		} else {
+			c.Fail("DOM/logged-account-metadata", key, pos(c, logged), "the NEW_TRANSACTION payload records "+env.origin(logged)+" as account metadata while "+env.origin(applied)+" is what was written: replaying the log does not reproduce the accounts' metadata")
+		}
+	default:
+		c.Fail("DOM/logged-account-metadata", key, pos(c, logged), "the NEW_TRANSACTION payload records "+types.ExprString(logged)+" as account metadata while "+types.ExprString(applied)+" is what was written (request-level account metadata is applied but not journaled): replaying the log does not reproduce the accounts' metadata")
+	}
 }
